@@ -190,7 +190,10 @@ def r6_only_notfound_tolerated(ck, rule="C18-R6"):
             err_bbs = {bb for bb, idx, st in fn.stmts() if st["k"] == "assign" and st["lhs"]["l"] == 0 and not st["lhs"].get("p") and
                        st["rv"]["k"] == "agg" and st["rv"].get("variant") == "Err"}
             err_bbs |= {bb for bb, t in fn.calls() if (callee_of(t).get("path") or "").endswith("from_residual") and t["dest"]["l"] == 0}
-            r = pathconst.reach_under(fn, lambda e_: None, None, blocked=err_bbs, valuation=lambda e_: None, prog=prog, start=[other_edge[1]]) \
+            # on this side the operation has failed: its result is an Err (a catch-all arm `other => other` that hands the result on is
+            # shared with the Ok case, but here it hands on an error, which the `?` that follows turns into an error return)
+            seed = {("V", t_["dest"]["l"]): ("Err",) for b_, t_ in fn.calls() if (callee_of(t_).get("rpath") or "") in OUT and "p" not in t_["dest"]}
+            r = pathconst.reach_under(fn, lambda e_: None, None, blocked=err_bbs, valuation=lambda e_: None, prog=prog, start=[other_edge[1]], start_env=seed) \
                 if other_edge[1] not in err_bbs else set()
             loop = cfg.innermost_loop_of(fn, g["bb"])
             goes_on = [b_ for b_ in r if fn.blocks[b_]["term"]["k"] == "return"] or (loop is not None and loop[0] in r)
